@@ -674,7 +674,13 @@ class IrToWasmCompiler:
             self.emit(load_op, 0, 0)  # offset, align
         elif tree.name in self.const_opcodes:
             opcode = self.const_opcodes[tree.name]
-            self.emit(opcode, tree.value)
+            value = tree.value
+            if opcode == "i32.const" and value >= 2**31:
+                # wasm constants are written as signed numbers
+                value -= 2**32
+            elif opcode == "i64.const" and value >= 2**63:
+                value -= 2**64
+            self.emit(opcode, value)
             self.stack += 1
         elif tree.name == "LABEL":  # isinstance(tree, ir.LiteralData):
             if tree.value in self.global_labels:
